@@ -12,6 +12,9 @@ Decided:
   R-PROGRESS       every lexer loop consumes input / advances an index / steps a finite
                    iterator on each cycle; next_value/next_datum/expect_*/parse_number
                    consume input whenever they succeed (all 257 first-byte cases).
+  R-DISCARD-AFTER-PEEK  Read::discard (which moves SliceRead's index unconditionally) is only reached
+                   when the most recent reader operation was a peek that returned a byte; functions that
+                   start by discarding require that state from every caller (fixpoint over call sites)
   R-ARITH (thorough) arithmetic overflow asserts are discharged or reviewed.
 Not decided: which error is returned; aborts inside std (allocation failure).
 """
@@ -109,6 +112,12 @@ def run(ctx):
         progress.ok_consuming(r5, lexpr, fnp, mode,
                               "callers' loops rely on a successful step having consumed input; an iterator over the "
                               "parser would yield items forever")
+
+    from .. import peekstate
+    r6 = ctx.rule("R-DISCARD-AFTER-PEEK", "the lookahead byte is discarded only right after a peek that returned a byte "
+                                          "(typestate of the reader over all abstract paths of the parser)")
+    n = peekstate.check(r6, lexpr)
+    r6.floor("functions", n)
 
     if ctx.tier == "thorough":
         thorough(ctx, db, lexpr, surf)
